@@ -76,17 +76,17 @@ def spellings(rng, u, mods):
         from_name = name.lower()
         bases = [(from_name, True), (from_name.capitalize(), True), (from_name.upper(), True)]
     for b, ok in bases:
-        out.append((b, ok))
+        out.append((b, ok, None))
     if not sym:
-        out.append(("__plural__", True))
+        out.append(("__plural__", True, None))
     prefs = [m for m in mods if ("SIUnitSymbolModifier" if sym else "SIUnitModifier") in m["attrs"]] if "SIUnit" in a else []
-    for m in rng.sample(prefs, min(3, len(prefs))):
-        out.append((m["name"] + bases[0][0], True))
+    for m in rng.sample(prefs, min(4, len(prefs))):
+        out.append((m["name"] + bases[0][0], True, m))
     wrong = [m for m in mods if ("SIUnitModifier" if sym else "SIUnitSymbolModifier") in m["attrs"]]
     if wrong:
-        out.append((rng.choice(wrong)["name"] + bases[0][0], None))
+        out.append((rng.choice(wrong)["name"] + bases[0][0], None, None))
     if "SIUnit" not in a and prefs == [] and mods:
-        out.append((rng.choice(mods)["name"] + bases[0][0], None))
+        out.append((rng.choice(mods)["name"] + bases[0][0], None, None))
     return out
 
 
@@ -113,6 +113,19 @@ def accept_sets(vocab, plural):
 
 def ref_accepts(acc, cnames, sp):
     return any(sp in acc[c][0] or sp.casefold() in acc[c][1] for c in cnames)
+
+
+def key_shadowed(ucs, cnames, unit_txt, u):
+    """the same spelling is also derived by another unit of the tag's classes (then which factor applies is the
+    dictionary's business; compared with the model only)"""
+    n = 0
+    for c in cnames:
+        for uu in ucs[c]["units"]:
+            if uu is u:
+                continue
+            if unit_txt == uu["name"] or unit_txt.casefold() == uu["name"].casefold():
+                n += 1
+    return n > 0
 
 
 def impl_eval(HedTag, HedString, schema, tagname, ext):
@@ -162,7 +175,7 @@ def run_schema(ctx, name, full):
             continue   # other value classes (name/text/dateTime) are not in the C11 model
         for cn in cnames:
             for u in ucs[cn]["units"]:
-                for sp, ok in spellings(ctx.rng, u, vocab["unit_modifiers"]):
+                for sp, ok, mod in spellings(ctx.rng, u, vocab["unit_modifiers"]):
                     if sp == "__plural__":
                         sp = pluralize.plural(u["name"].lower())
                     n = ctx.rng.choice(NUMS_OK)
@@ -170,7 +183,7 @@ def run_schema(ctx, name, full):
                     if ok is None and " " not in sp:
                         ok = True if ref_accepts(acc, cnames, sp) else "bad"
                     ext = f"{sp} {n}" if pre else f"{n} {sp}"
-                    cases.append((tagname, cnames, numeric, ext, ok, u, "unit"))
+                    cases.append((tagname, cnames, numeric, ext, ok, (u, mod) if ok is True else u, "unit"))
                     if ctx.rng.random() < 0.15:
                         cases.append((tagname, cnames, numeric, f"{ctx.rng.choice(NUMS_BAD)} {sp}", None, u, "badnum"))
         for n in ctx.rng.sample(NUMS_OK, 3):
@@ -187,6 +200,9 @@ def run_schema(ctx, name, full):
         if not c["functional"] or c["emptyKey"]:
             ctx.notes.append(f"{name}/{c['name']}: derived table not functional or has an empty key - theorems' hypotheses fail there")
     for (tagname, cnames, numeric, ext, ok, u, kind), m in zip(cases, ans[1:]):
+        mod = None
+        if isinstance(u, tuple):
+            u, mod = u
         try:
             r, issues = impl_eval(HedTag, HedString, schema, tagname, ext)
         except Exception as e:
@@ -218,6 +234,13 @@ def run_schema(ctx, name, full):
                     num = ext.split(" ")[1] if "unitPrefix" in u["attrs"] else ext.split(" ")[0]
                     if v1 is None or abs(v1 * float(num) - r["value"]) > 1e-9 * max(1.0, abs(r["value"])):
                         ctx.violation("value-not-linear-in-number", case, {"v": r["value"], "v1": v1})
+                    # = number x unit factor x prefix factor, factors read from the XML by our own reader
+                    want = Fraction(Decimal(num)) * frac(dec_of(u["attrs"]["conversionFactor"][0])) * \
+                        (frac(dec_of(mod["attrs"].get("conversionFactor", ["1.0"])[0])) if mod else 1)
+                    sole = sum(1 for c in cnames for uu in ucs[c]["units"]) >= 1
+                    if sole and abs(float(want) - r["value"]) > 1e-9 * max(1.0, abs(float(want))) and \
+                            not key_shadowed(ucs, cnames, unit_txt, u):
+                        ctx.violation("value-not-number-times-factors", case, {"v": r["value"], "expected": float(want)})
         elif ok == "bare":
             if r["issues"] != ["UNITS_MISSING"]:
                 ctx.violation("bare-number-not-only-missing-unit-warning", case, r)
